@@ -153,8 +153,15 @@ int flex_main (int argc, char *argv[])
 		while (wait(&child_status) > 0){
 			if (!WIFEXITED (child_status)
 			    || WEXITSTATUS (child_status) != 0){
-				/* report an error of a child
+				/* report an error of a child; one that was
+				 * terminated by a signal had no chance to
+				 * say anything itself
 				 */
+				if (WIFSIGNALED (child_status))
+					fprintf (stderr,
+						 _("%s: a filter process was terminated by signal %d\n"),
+						 program_name,
+						 WTERMSIG (child_status));
 				if( exit_status <= 1 )
 					exit_status = 2;
 
